@@ -24,6 +24,7 @@ type Clause struct {
 	Expr  ast.Expr   // typed expression (overlay AST)
 	Locs  []ast.Expr // for assigns
 	Whole []bool     // for assigns: loc[..] (whole array)
+	GTarget, GValue, GCond ast.Expr // for gassign
 }
 
 type Contract struct {
@@ -377,6 +378,9 @@ func (w *World) collectClauses(c *Contract, pkg *packages.Package, fd *ast.FuncD
 				continue
 			}
 			byId[int(idv)].Expr = call.Args[1]
+		case "govcGassign":
+			cl := byId[int(idv)]
+			cl.GTarget, cl.GValue, cl.GCond = call.Args[1], call.Args[2], call.Args[3]
 		case "govcLoc":
 			id := int(idv)
 			whole := false
